@@ -9,8 +9,9 @@ PROP = "C04"
 PROOF_FILES = ["Properties/C04.v"]
 PCR_MAX = (1 << 33) * 300
 PTS_MAX = 1 << 33
-RULE = ("PCR values 0, 2^k, 2^k+-1 (every k), base 2^k+-1 x ext {0,1,127,128,255,256,257,298,299}, every slice boundary, range ends, "
-        "random; PTS values 0, 2^k, 2^k+-1, slice boundaries (bits 32/30/29/22/15/14/7), random; written into prior contents "
+RULE = ("PCR values 0, 2^k, 2^k+-1 (every k), base 2^k+-1 x ext {0,1,127,128,255,256,257,298,299}, every ext 0..299 on four bases, every "
+        "8-bit pattern across each byte boundary of the base, range ends, "
+        "random; PTS values 0, 2^k, 2^k+-1, slice boundaries (bits 32/30/29/22/15/14/7) with every 8-bit pattern across each, random; written into prior contents "
         "00.., ff.., random of length 6..12 resp. 5..12 and read back (both PTS decoders); decoders on random bytes and on "
         "every single reserved/marker bit flipped; a case is non-trivial when it is a distinct request inside the property's "
         "hypotheses (value in range, target long enough); short targets and 64-bit values are fidelity cases")
@@ -64,6 +65,14 @@ def pcr_values(rng, tier):
             if 0 <= base < PTS_MAX:
                 for ext in (0, 1, 127, 128, 255, 256, 257, 298, 299):
                     vs.add(base * 300 + ext)
+    # every extension value 0..299 on four bases; every 8-bit pattern straddling each byte boundary of the base
+    for base in (0, 1, PTS_MAX - 1, rng.randrange(PTS_MAX)):
+        for ext in range(300):
+            vs.add(base * 300 + ext)
+    for k in (1, 9, 17, 25):
+        for x in range(256):
+            base = (x << max(0, k - 4)) % PTS_MAX
+            vs.add(base * 300 + rng.randrange(300))
     for _ in range(300 if tier == "quick" else 30000):
         vs.add(rng.randrange(PCR_MAX))
         vs.add(rng.randrange(1 << rng.randrange(1, 42)) % PCR_MAX)
@@ -80,6 +89,10 @@ def pts_values(rng, tier):
     for k in (7, 14, 15, 22, 29, 30, 32):   # slice boundaries: everything below / at / above
         for v in ((1 << k) - 1, 1 << k, (1 << k) | ((1 << k) - 1), PTS_MAX - (1 << k), (PTS_MAX - 1) ^ (1 << k)):
             vs.add(v % PTS_MAX)
+    for k in (7, 14, 15, 22, 29, 30):       # every 8-bit pattern straddling each slice / byte boundary
+        for x in range(256):
+            vs.add((x << (k - 4)) % PTS_MAX)
+            vs.add(((x << (k - 4)) | rng.randrange(1 << (k - 4))) % PTS_MAX)
     for _ in range(300 if tier == "quick" else 30000):
         vs.add(rng.randrange(PTS_MAX))
         vs.add(rng.randrange(1 << rng.randrange(1, 34)) % PTS_MAX)
